@@ -58,6 +58,12 @@ var c18Tpls = map[string]string{
 	// another call's text
 	"tf.txt": "{% set t = x ~ ' the quick brown fox ' ~ y ~ ' " + c18Words + " ' ~ x %}{{ t|title }}|{{ t|upper }}|{{ t|lower }}|{{ t|capitalize }}|{{ t|reverse }}|{{ t|trim }}|{{ t|length }}|{{ t|url_encode }}|{{ t|nl2br }}|{{ t|striptags }}|{{ t|split(' ')|join(',') }}|{{ t|replace({'quick': x}) }}|{{ t|slice(2, 40) }}|{{ t|first }}{{ t|last }}|{{ t|json_encode }}|{{ t|format(x) }}|{{ t|convert_encoding('UTF-8', 'ISO-8859-1')|length }}|{{ t|default(y) }}|{{ t|raw }}",
 	"tn.txt": "{{ l|sort|join('-') }}|{{ l|reverse|join }}|{{ l|merge([x, y])|join(',') }}|{{ l|batch(2, x)|length }}|{{ l|keys|join }}|{{ l|first }}{{ l|last }}|{{ l|slice(1, 2)|join }}|{{ {'k': x, 'j': y}|merge({'i': x})|keys|sort|join }}|{{ -5|abs }}|{{ 3.75|round(1) }}|{{ 1234567.891|number_format(2, ',', '.') }}|{{ l|length }}|{{ l|json_encode }}|{{ '2020-02-03 04:05:06'|date('Y-m-d H:i') }}|{{ '2020-02-03'|date_modify('+1 day')|date('Y-m-d') }}|{{ nothing|default(x) }}",
+	// a value marked safe for html that the calls share (each has its own context map; the value in it is the same),
+	// printed in an html and in a js template; a user filter derives a js-safe value from it
+	"sv.html": "<i>{{ sv }}</i>{{ sv|markjs }}|{{ x }}",
+	"sv.js":   "var a = \"{{ sv }}\", b = \"{{ sv|markjs }}\";{{ x }}",
+	// a template that cannot be found (on the filesystem; the harness loader takes the name for an inline source)
+	"q.html": "A{% include 'nosuch-' ~ l|length ~ '.html' %}B{{ x }}",
 	"f.js":    "{% if x matches pat %}g('{{ y }}'){% endif %}{% for i in l %}{{ i }};{% endfor %}{{ x starts with pat ? 1 : 0 }}",
 }
 
@@ -85,6 +91,7 @@ var c18Ops = []c18Op{
 	{false, "u1.html", false, ""}, {false, "u2.html", false, ""}, {false, "u3.html", false, ""},
 	{false, "mf.txt", false, ""}, {false, "mm.txt", false, "[<k>]|<j>|[[<i>]]"}, {false, "e1.html", false, ""}, {true, "e2.html", false, ""},
 	{false, "tf.txt", false, ""}, {false, "tn.txt", false, ""},
+	{false, "sv.html", false, ""}, {false, "sv.js", false, ""}, {false, "q.html", false, ""},
 }
 
 // c18Epoch makes template names and patterns unique per schedule / iteration ("a~17.html" is served like
@@ -110,13 +117,23 @@ var c18Suffix = regexp.MustCompile(`~[0-9]+|\{# [0-9]+ #\}`)
 // c18Ctx: the context of a call. Concurrent calls get different variants v (thread index): the value x and
 // the pattern differ, so that a call that picks up another call's operands or intermediate results (a shared
 // cache filled in two steps, a scratch buffer) returns something it does not return alone.
+// c18Shared: one html-safe value per epoch, shared by all calls of that schedule / iteration (a solo run has an epoch,
+// hence a value, of its own)
+var c18Shared sync.Map
+
+func c18SharedFor(k int64) stick.Value {
+	v, _ := c18Shared.LoadOrStore(k, stick.NewSafeValue("<b>'s'</b>", "html"))
+	c18Shared.Delete(k - 4096) // old epochs are never used again
+	return v
+}
+
 func c18Ctx(k int64, v int) map[string]stick.Value {
 	pre := []string{"", "p", "q"}[v%3]
 	first := "<"
 	if pre != "" {
 		first = pre
 	}
-	return map[string]stick.Value{"x": pre + "<'\"&;\\", "y": "</script>", "l": []stick.Value{"<", "'", pre},
+	return map[string]stick.Value{"x": pre + "<'\"&;\\", "y": "</script>", "l": []stick.Value{"<", "'", pre}, "sv": c18SharedFor(k),
 		"base": c18Name("a.html", k), "inc": c18Name("c.txt", k), "inc2": c18Name("k.txt", k), "ub": c18Name("ub.html", k), "pat": "^" + first + ".{0," + strconv.FormatInt(k%997+1, 10) + "}"}
 }
 
@@ -158,6 +175,9 @@ func c18Env(kind int, s *core.Sched) *stick.Env {
 			os.WriteFile(filepath.Join(dir, n), []byte(src), 0o644)
 		}
 		env = twig.New(stick.NewFilesystemLoader(dir))
+	env.Filters["markjs"] = func(ctx stick.Context, val stick.Value, args ...stick.Value) stick.Value {
+		return stick.NewSafeValue(val, "js") // a user filter that derives a js-safe value; it does not touch its input
+	}
 		env.Filters["up"] = func(ctx stick.Context, val stick.Value, args ...stick.Value) stick.Value {
 			return strings.ToUpper(stick.CoerceString(val))
 		}
@@ -170,6 +190,9 @@ func c18Env(kind int, s *core.Sched) *stick.Env {
 	} else {
 		env = stick.New(&c18Loader{s})
 		env.Visitors = append(env.Visitors, &c18Visitor{s})
+	}
+	env.Filters["markjs"] = func(ctx stick.Context, val stick.Value, args ...stick.Value) stick.Value {
+		return stick.NewSafeValue(val, "js") // a user filter that derives a js-safe value; it does not touch its input
 	}
 	env.Filters["up"] = func(ctx stick.Context, val stick.Value, args ...stick.Value) stick.Value {
 		return strings.ToUpper(stick.CoerceString(val))
@@ -452,7 +475,7 @@ func c18Levels(tier string) []core.Level {
 	// all pairs of the first 12 operations; the later ones (nested includes, nil-context calls, padded templates with
 	// use, failing / nested macros, templates that end early) with themselves, with the others of their kind and with
 	// two of the first (html with blocks, css with include)
-	group := map[int]int{13: 1, 14: 1, 15: 2, 16: 2, 17: 2, 18: 3, 19: 3, 20: 4, 21: 4, 22: 5, 23: 5}
+	group := map[int]int{13: 1, 14: 1, 15: 2, 16: 2, 17: 2, 18: 3, 19: 3, 20: 4, 21: 4, 22: 5, 23: 5, 24: 6, 25: 6, 26: 6}
 	paired := func(i, j int) bool {
 		if j < 12 || i == 0 || i == 3 || i == j {
 			return true
@@ -463,7 +486,7 @@ func c18Levels(tier string) []core.Level {
 		for i := 0; i < n; i++ {
 			for j := i; j < n; j++ {
 				if paired(i, j) {
-					if bound > 1 && j >= 22 {
+					if bound > 1 && j >= 22 && j <= 23 {
 						continue // the two filter operations (several hundred points each): schedules with <= 1 preemption, and the race pass
 					}
 					emit(core.Case{Fam: "sched", N: []int{kind, bound, i, j}})
@@ -477,7 +500,7 @@ func c18Levels(tier string) []core.Level {
 		nTriples = len(triples)
 	}
 	lv := []core.Level{
-		{Name: "twig env: pairs of 24 operations (incl. the same one twice), all schedules with <= 1 preemption", Gen: func(emit func(core.Case)) { pairs(0, 1, emit) }},
+		{Name: "twig env: pairs of 27 operations (incl. the same one twice), all schedules with <= 1 preemption", Gen: func(emit func(core.Case)) { pairs(0, 1, emit) }},
 		{Name: fmt.Sprintf("twig env: all pairs (but those with the two filter operations), all schedules with <= %d preemptions", bound), Gen: func(emit func(core.Case)) { pairs(0, bound, emit) }},
 		{Name: "core env: all pairs, all schedules with <= 1 preemption", Gen: func(emit func(core.Case)) { pairs(1, 1, emit) }},
 		{Name: fmt.Sprintf("twig env: %d three-thread scenarios, all schedules with <= 2 preemptions", nTriples), Gen: func(emit func(core.Case)) {
@@ -493,7 +516,7 @@ func c18Levels(tier string) []core.Level {
 			for kind := 0; kind < kinds; kind++ {
 				for op := 0; op < n; op++ {
 					for k := 0; k <= 250; k++ {
-						if op >= 22 && k > 40 && k%10 != 0 {
+						if (op == 22 || op == 23) && k > 40 && k%10 != 0 {
 							continue // the filter operations have several hundred points each: the first 40 and every tenth
 						}
 						emit(core.Case{Fam: "barrier", N: []int{kind, 64, op, k}})
